@@ -21,13 +21,19 @@ META = {
                   'every cell of the bounded table and rejects the wildcard-with-credentials design.  Every cell is then '
                   'replayed through real apps on both stacks and compared header by header; random configurations and apps '
                   'beyond the table are recorded and judged by TLC.',
-    'level_note': 'Bounded table: 3 allow_origins x 4 allow_credentials x 3 expose_headers (+ cors_enable default), 6 '
-                  'origins (absent, allowed, other-case, proper part, disallowed), 3 methods x 5 targets (routed, own '
-                  'on_options, sink, static, unrouted), 7 user-code behaviours, preflight headers present/absent, one other '
-                  'middleware (failing response hook / completing request hook, before/after) for 3 configurations.  '
+    'level_note': 'Bounded table: 4 allow_origins (wildcard, one, two, EMPTY collection) x 4 allow_credentials x 2 (quick) / 3 '
+                  '(thorough) expose_headers (+ cors_enable default), 6 origins (absent, allowed, other-case, proper part, '
+                  'disallowed), 3 methods x 5 targets (routed, own on_options, sink, static, unrouted), 15 user-code '
+                  'behaviours (returning normally with/without Allow and pre-set headers; answering by RAISING: HTTPError, '
+                  'HTTPStatus 200/301/403/503 with Allow in the exception headers or on resp, without Allow, a plain exception '
+                  'with a registered handler - none of which counts as succeeded), preflight headers present/absent, one other '
+                  'middleware (failing response hook / completing request hook, before/after) for 3 (quick) / all (thorough) '
+                  'configurations.  Every spelling of an empty collection (list, tuple, set, frozenset, empty string, None where '
+                  'accepted) is rotated by the harness for allow_origins / allow_credentials / expose_headers.  Wrong designs '
+                  'rejected by TLC: wildcard with credentials, empty-means-all, raised-HTTPStatus-counts-as-success.  '
                   'Interpretation: a grant is an Access-Control-Allow-Origin header in the final response; the credentials '
-                  'header a denied preflight leaves behind (without origin header) grants nothing and is a D-clause.  '
-                  'Trusted: TLC, engine/drivers.py, splitting header values on commas.',
+                  'header a denied preflight leaves behind (without origin header) grants nothing and is a D-clause; requests '
+                  'never carry an empty Origin value.  Trusted: TLC, engine/drivers.py, splitting header values on commas.',
 }
 
 from engine.core import MachineryError, digest
@@ -40,14 +46,47 @@ HDRS = {'acao': 'access-control-allow-origin', 'acac': 'access-control-allow-cre
         'acah': 'access-control-allow-headers', 'acma': 'access-control-max-age', 'allow': 'allow'}
 
 
+class HarnessError(Exception):
+    """a plain exception for which every generated app registers an error handler (answers 409)"""
+
+
+def register_handler(app, asgi):
+    import falcon
+    if asgi:
+        async def handle(req, resp, ex, params):
+            resp.status = falcon.HTTP_409
+    else:
+        def handle(req, resp, ex, params):
+            resp.status = falcon.HTTP_409
+    app.add_error_handler(HarnessError, handle)
+
+
 def act(req, resp):
-    """the behaviours of generated user code (spec/Cors.tla: Preset), selected by the request"""
+    """the behaviours of generated user code (spec/Cors.tla: Behaviours / Preset), selected by the request"""
     import falcon
     beh = req.get_header('X-Beh') or 'plain'
     if beh == 'fail':
         raise falcon.HTTPForbidden()
-    if beh in ('allow', 'allowacao'):
+    # answering by raising: HTTPStatus of every class of status code, HTTPError, a handled plain exception;
+    # Allow made known through the exception's headers or on resp before raising
+    if beh == 'st2allow':
+        raise falcon.HTTPStatus(falcon.HTTP_200, headers={'Allow': 'GET, POST'})
+    if beh == 'st5':
+        raise falcon.HTTPStatus(falcon.HTTP_503)
+    if beh == 'st5allow':
+        raise falcon.HTTPStatus(falcon.HTTP_503, headers={'Allow': 'GET, POST'})
+    if beh == 'exc':
+        raise HarnessError()
+    if beh in ('allow', 'allowacao', 'st3allow', 'st4allow', 'errallow', 'excallow'):
         resp.set_header('Allow', 'GET, POST')
+    if beh == 'st3allow':
+        raise falcon.HTTPMovedPermanently('/elsewhere')
+    if beh == 'st4allow':
+        raise falcon.HTTPStatus(falcon.HTTP_403)
+    if beh == 'errallow':
+        raise falcon.HTTPForbidden()
+    if beh == 'excallow':
+        raise HarnessError()
     if beh in ('acao', 'allowacao', 'presetall'):
         resp.set_header('Access-Control-Allow-Origin', 'https://preset.example')
     if beh in ('acac', 'presetall'):
@@ -84,14 +123,23 @@ def other_middleware(kind, asgi):
     raise MachineryError('unknown middleware kind %r' % kind)
 
 
-def cors_args(cfg, rng=None):
-    """spec-level configuration -> CORSMiddleware keyword arguments (forms vary with rng)"""
+# every way of writing "nothing": an empty allow_origins allows NO origin (it is not the wildcard)
+EMPTY_AO = ([], (), set(), frozenset(), '')
+EMPTY_AC = (None, [], (), set(), frozenset(), '')
+EMPTY_EH = (None, [], (), '')
+
+
+def cors_args(cfg, rng=None, variant=0):
+    """spec-level configuration -> CORSMiddleware keyword arguments (forms vary with rng, or with `variant`)"""
+    def pick(forms, k):
+        return rng.choice(forms) if rng is not None else forms[(variant + k) % len(forms)]
+
     def form(x, none_ok):
         if x['star']:
             return '*'
         items = sorted(x['set'])
-        if not items and none_ok:
-            return None
+        if not items:
+            return pick(EMPTY_AC, 1) if none_ok else pick(EMPTY_AO, 0)
         if len(items) == 1 and (rng is None or rng.random() < 0.5):
             return items[0]
         if rng is None:
@@ -100,7 +148,7 @@ def cors_args(cfg, rng=None):
     kw = {'allow_origins': form(cfg['ao'], False), 'allow_credentials': form(cfg['ac'], True)}
     eh = list(cfg['eh'])
     if not eh:
-        kw['expose_headers'] = None
+        kw['expose_headers'] = pick(EMPTY_EH, 2)
     elif len(eh) == 1 and (rng is None or rng.random() < 0.5):
         kw['expose_headers'] = eh[0]
     elif rng is not None and rng.random() < 0.3:
@@ -117,7 +165,7 @@ def cors_args(cfg, rng=None):
     return kw
 
 
-def build(asgi, sbs, wiring, cfg, other, dirs, rng=None):
+def build(asgi, sbs, wiring, cfg, other, dirs, rng=None, variant=0):
     """-> (Built, guard_fired).  cors_enable=True or explicit middleware; the other middleware listed
     before / after the CORS one through the public constructor / add_middleware"""
     from falcon import CORSMiddleware
@@ -130,11 +178,12 @@ def build(asgi, sbs, wiring, cfg, other, dirs, rng=None):
             if oth is not None:
                 b.app.add_middleware(oth)
     elif wiring == 'explicit':
-        cm = CORSMiddleware(**cors_args(cfg, rng))
+        cm = CORSMiddleware(**cors_args(cfg, rng, variant))
         mws = [cm] if oth is None else ([oth, cm] if other['pos'] == 'before' else [cm, oth])
         b = c02.Built(asgi, sbs, dirs, act, middleware=mws)
     else:
         b = c02.Built(asgi, sbs, dirs, act)
+    register_handler(b.app, asgi)
     return b
 
 
@@ -232,12 +281,18 @@ def run(ctx):
 def leg_m(ctx):
     # the same exhaustive run checks the clauses and prints the decision table (no history variable involved)
     r = ctx.tlc('MC_Cors', ctx.pick('MC_Cors.cfg', 'MC_CorsFull.cfg'), coverage=True, workers=8, timeout=ctx.pick(280, 2400))
-    ctx.require_coverage(r, ['MakeEnable', 'MakeExplicit', 'AddCorsAgainRejected', 'XAddOther', 'Exchange'])
-    rw = ctx.tlc('MC_Cors', 'MC_CorsWrong.cfg', workers=4, timeout=300, must_hold=False, count=False)
-    if rw.violated != 'NoWildcardWithCredentials':
-        raise MachineryError('vacuity: StarWithCreds=TRUE should violate NoWildcardWithCredentials, TLC reported %r'
-                             % rw.violated)
-    ctx.extra['wrong_design_instances_rejected'] = ['StarWithCreds=TRUE -> NoWildcardWithCredentials']
+    ctx.require_coverage(r, ['MakeEnable', 'MakeExplicit', 'AddCorsAgainRejected', 'XAddOther', 'XExchangeOne'])
+    wrong = (('MC_CorsWrong.cfg', 'StarWithCreds=TRUE', ('NoWildcardWithCredentials',)),
+             # fails only if the instance really contains an empty allow_origins collection and an Origin
+             ('MC_CorsWrongEmpty.cfg', 'EmptyMeansAll=TRUE', ('OnlyAllowedOrigins', 'GrantIsEchoOrStar',
+                                                              'CredentialsOnlyIfConfigured')),
+             # fails only if the instance really contains a preflight answered by a raised HTTPStatus with Allow
+             ('MC_CorsWrongStatus.cfg', 'StatusSucceeds=TRUE', ('NoApprovalAfterRaise',)))
+    for cfg, switch, want in wrong:
+        rw = ctx.tlc('MC_Cors', cfg, workers=4, timeout=300, must_hold=False, count=False)
+        if rw.violated not in want:
+            raise MachineryError('vacuity: %s should violate %s, TLC reported %r' % (switch, want, rw.violated))
+    ctx.extra['wrong_design_instances_rejected'] = ['%s -> %s' % (sw, '/'.join(w)) for _, sw, w in wrong]
     ctx.progress('leg M done: %d states' % r.distinct)
     return r.json
 
@@ -255,6 +310,18 @@ def leg_a(ctx, dirs, table=None):
         if 'rq' in row:
             key = c02_key(row)
             groups.setdefault(key, []).append(row)
+    # the table must really contain what the two newest clauses are about (an empty allow_origins collection with an
+    # Origin; a preflight answered by a raised HTTPStatus that makes Allow known)
+    n_empty = sum(1 for rows in groups.values() for r in rows
+                  if not r['cfg']['ao']['star'] and not r['cfg']['ao']['set'] and r['rq']['origin'] != '-')
+    n_status = sum(1 for rows in groups.values() for r in rows
+                   if r['beh'] in ('st2allow', 'st3allow', 'st4allow', 'st5allow') and r['rq']['m'] == 'OPTIONS'
+                   and r['rq']['acrm'] != '-' and r['rq']['origin'] != '-')
+    if not n_empty or not n_status:
+        raise MachineryError('decision table lacks empty-allow_origins cells (%d) or raised-HTTPStatus preflights (%d)'
+                             % (n_empty, n_status))
+    ctx.extra['cells_with_empty_allow_origins'] = n_empty
+    ctx.extra['preflights_answered_by_raised_HTTPStatus'] = n_status
     del table
     # quick: every cell on WSGI, a seeded third of the cells on ASGI as well; thorough: every cell on both stacks
     third = ctx.rng.randrange(3)
@@ -263,7 +330,8 @@ def leg_a(ctx, dirs, table=None):
         rows = groups[key]
         first = rows[0]
         for asgi in (False, True):
-            b = build(asgi, app['sbs'], first['wiring'], first['cfg'], first['other'], dirs)
+            variant = int(key, 16) + asgi + ctx.seed      # which spelling of "nothing" (empty collections) is used
+            b = build(asgi, app['sbs'], first['wiring'], first['cfg'], first['other'], dirs, variant=variant)
             for c in calls:
                 ok, exn = b.call(c)
                 if not ok:
@@ -280,6 +348,7 @@ def leg_a(ctx, dirs, table=None):
             for r, o in zip(rows, obs):
                 cells += 1
                 case = {'wiring': r['wiring'], 'cfg': r['cfg'], 'other': r['other'], 'guard': r['guard'], 'asgi': asgi,
+                        'variant': variant,
                         'sbs': app['sbs'], 'app': app, 'rq': r['rq'], 'beh': r['beh'], 'expected': norm_out(r['out']),
                         'denied': r['denied']}
                 ctx.case(case, nontrivial=r['rq']['origin'] != '-', key=(key, asgi, digest([r['rq'], r['beh']])))
@@ -291,7 +360,7 @@ def leg_a(ctx, dirs, table=None):
                     case['observed'] = o['extra']
                     what = '%s %s Origin=%s acrm=%s beh=%s on %s app, %s %s, other=%s: %s' % (
                         r['rq']['m'], c02.text(r['rq']['p']), r['rq']['origin'], r['rq']['acrm'], r['beh'],
-                        'ASGI' if asgi else 'WSGI', r['wiring'], cors_args(r['cfg']), r['other'], d[1])
+                        'ASGI' if asgi else 'WSGI', r['wiring'], cors_args(r['cfg'], None, variant), r['other'], d[1])
                     if d[0].startswith('D:'):
                         ctx.detail(d[0], case, what)
                     else:
@@ -310,7 +379,8 @@ def c02_key(row):
 # ---------------------------------------------------------------------------------------------
 ORIGINS = ['https://a.example', 'https://b.example', 'https://c.example:8443', 'http://a.example', 'null',
            'https://evil.example', 'HTTPS://A.EXAMPLE', 'https://a.exam', 'https://a.example.evil.test', 'a']
-BEHS = ['plain', 'plain', 'plain', 'allow', 'acao', 'acac', 'allowacao', 'presetall', 'fail']
+BEHS = ['plain', 'plain', 'plain', 'allow', 'allow', 'acao', 'acac', 'allowacao', 'presetall', 'fail',
+        'st2allow', 'st3allow', 'st4allow', 'st5', 'st5allow', 'errallow', 'exc', 'excallow']
 EXPOSE = ['X-A', 'X-B', 'ETag', 'X-Request-Id']
 
 
@@ -326,12 +396,13 @@ def gen_cfg(rng):
         k = rng.randint(0 if allow_empty else 1, 4)
         return {'star': False, 'set': sorted(rng.sample(ORIGINS[:7], k))}
     eh = rng.sample(EXPOSE, rng.choice((0, 0, 1, 2, 3)))
-    return {'ao': origins(False), 'ac': origins(True), 'eh': eh}
+    ao = origins(False) if rng.random() < 0.85 else {'star': False, 'set': []}     # an empty collection: nobody
+    return {'ao': ao, 'ac': origins(True), 'eh': eh}
 
 
 def leg_b(ctx, dirs):
     rng = ctx.rng
-    nsc = ctx.pick(250, 4000)
+    nsc = ctx.pick(250, 3000)
     seen = {}
     nreq = 0
     default = {'ao': {'star': True, 'set': []}, 'ac': {'star': False, 'set': []}, 'eh': []}
@@ -435,7 +506,7 @@ def replay(ctx, case):
             if v != 'ok' and v.startswith('P:'):
                 ctx.violation(v.split('@')[0], case, 'trace rejected at %s' % v)
             return
-        b = build(case['asgi'], case['sbs'], case['wiring'], case['cfg'], case['other'], dirs)
+        b = build(case['asgi'], case['sbs'], case['wiring'], case['cfg'], case['other'], dirs, variant=case.get('variant', 0))
         for c in app_calls(case['app']):
             b.call(c)
         rq = case['rq']
